@@ -11,9 +11,9 @@ git -C /repo worktree remove --force $wt 2>/dev/null
 cd $wt
 bash $src/run.sh $wt; echo "DEMO_CLEAN_RC=$?"
 git apply $src/patch.diff || { echo APPLY_FAILED; exit 8; }
-make -j8 >/dev/null 2>&1; echo "BUILD_RC=$?"
+make -j5 >/dev/null 2>&1; echo "BUILD_RC=$?"
 bash $src/run.sh $wt; echo "DEMO_PATCHED_RC=$?"
-make -k -j8 check > $wt/check.log 2>&1
+make -k -j5 check > $wt/check.log 2>&1
 grep -h "^PASS:\|^FAIL:\|^XFAIL:\|^ERROR:\|^XPASS:\|^SKIP:" $wt/check.log | sort | uniq -c | sort -rn | awk '{print $2}' | sort | uniq -c
 echo "FAILS:"; grep -h "^FAIL:\|^ERROR:" $wt/check.log | sort -u
 cd /; git -C /repo worktree remove --force $wt
